@@ -54,7 +54,7 @@ type item struct {
 }
 
 var plainOK = map[string]bool{"xfer": true, "create": true, "call": true, "revert": true, "oog": true, "loop": true, "pre": true,
-	"admok": true, "admshort": true, "kv": true, "kvbig": true}
+	"admok": true, "admshort": true, "admcall": true, "kv": true, "kvbig": true}
 
 type run struct {
 	rep        *mbt.Report
